@@ -39,8 +39,24 @@ var (
 	fList     = flag.Bool("list", false, "list registered properties")
 )
 
+// memGuard stops a process whose memory runs away (a generator or harness bug) before the machine suffers.
+func memGuard() {
+	go func() {
+		var m runtime.MemStats
+		for {
+			time.Sleep(time.Second)
+			runtime.ReadMemStats(&m)
+			if m.Sys > 12<<30 {
+				fmt.Fprintf(os.Stderr, "simcheck: memory guard: %d MiB in use, giving up (infrastructure)\n", m.Sys>>20)
+				os.Exit(2)
+			}
+		}
+	}()
+}
+
 func main() {
 	flag.Parse()
+	memGuard()
 	if *fList {
 		fmt.Println(strings.Join(props.IDs(), " "))
 		return
@@ -162,7 +178,7 @@ func worker(p props.Prop) {
 			os.Exit(2)
 		}
 		out.Flush()
-		if strings.Contains(r.Infra, "watchdog") {
+		if isHang(r) {
 			// a task is still running somewhere in this process: it cannot be reused
 			os.Exit(3)
 		}
